@@ -340,7 +340,7 @@ theorem addFunction_refines (b : Bundle) (id : Id) (tag : Nat) (h : b.Inv) :
     obtain ⟨d, hd⟩ := absEntry_isSome (h id e0 hget)
     have hsome : b.abs id = some d := by simp [Bundle.abs, abs, hget, hd]
     simp only [hsome]
-    exact ⟨h, rfl, trivial⟩
+    exact ⟨h, trivial, trivial⟩
 
 theorem step_refines (b : Bundle) (op : Op) (h : b.Inv) :
     (step b op).1.Inv ∧ (step b op).1.abs = (specStep b.abs op).1 ∧
@@ -547,85 +547,115 @@ def expectedErrors (taken : Id → Bool) : List AstEntry → List AstEntry → L
 theorem idsOf_append (a b : List AstEntry) : idsOf (a ++ b) = idsOf a ++ idsOf b := by
   simp [idsOf, List.filterMap_append]
 
+theorem mem_idsOf_snoc (pre : List AstEntry) (e : AstEntry) (id : Id) :
+    id ∈ idsOf (pre ++ [e]) ↔ (id ∈ idsOf pre ∨ (defOf e).map (·.1) = some id) := by
+  rw [idsOf_append, List.mem_append]
+  cases h : defOf e <;> simp [idsOf, h, eq_comm]
+
 theorem specAdd_errors_aux (m0 : Spec) (rest : List AstEntry) :
     ∀ (pre : List AstEntry) (m : Spec),
-      (∀ id, (m id).isSome = ((m0 id).isSome || (idsOf pre).contains id)) →
+      (∀ id, (m id).isSome = true ↔ ((m0 id).isSome = true ∨ id ∈ idsOf pre)) →
       (specAdd m rest).2 = expectedErrors (fun id => (m0 id).isSome) pre rest := by
   induction rest with
   | nil => intro pre m _; rfl
   | cons e rest ih =>
     intro pre m hm
-    cases e with
-    | other =>
-      simp only [specAdd, defOf, expectedErrors, List.nil_append]
+    cases hde : defOf e with
+    | none =>
+      simp only [specAdd, hde, expectedErrors, List.nil_append]
       apply ih
       intro id
-      rw [hm id, idsOf_append]
-      simp [idsOf, defOf]
-    | message i v a =>
-      simp only [specAdd, defOf, expectedErrors]
+      rw [mem_idsOf_snoc, hde, hm id]
+      simp
+    | some p =>
+      obtain ⟨i, k, d⟩ := p
+      simp only [specAdd, hde, expectedErrors]
       cases hmi : m i with
       | none =>
-        have h1 := hm i
-        rw [hmi] at h1
-        simp only [Option.isSome_none] at h1
-        rw [← h1]
-        simp only [Bool.false_eq_true, if_false, List.nil_append]
+        have h1 : ¬ ((m0 i).isSome = true ∨ i ∈ idsOf pre) := by
+          rw [← hm i, hmi]; simp
+        have hc : ((m0 i).isSome || (idsOf pre).contains i) = false := by
+          simp only [not_or] at h1
+          simp [h1.1, h1.2]
+        simp only [hc, Bool.false_eq_true, if_false, List.nil_append]
         apply ih
         intro id
-        rw [idsOf_append]
+        rw [mem_idsOf_snoc, hde]
         by_cases hi : i = id
-        · subst hi; simp [Spec.set, idsOf, defOf]
-        · have : ¬ id = i := fun e => hi e.symm
-          simp [Spec.set, hi, hm id, idsOf, defOf, this]
+        · subst hi; simp [Spec.set]
+        · simp [Spec.set, hi, hm id]
       | some d0 =>
-        have h1 := hm i
-        rw [hmi] at h1
-        simp only [Option.isSome_some] at h1
-        rw [← h1]
-        simp only [if_true, List.singleton_append]
+        have h1 : ((m0 i).isSome = true ∨ i ∈ idsOf pre) := by
+          rw [← hm i, hmi]; rfl
+        have hc : ((m0 i).isSome || (idsOf pre).contains i) = true := by
+          rcases h1 with h1 | h1 <;> simp [h1]
+        simp only [hc, if_true, List.singleton_append]
         congr 1
         apply ih
         intro id
-        rw [idsOf_append]
+        rw [mem_idsOf_snoc, hde]
         by_cases hi : i = id
-        · subst hi; rw [hmi]; simp [idsOf, defOf]
-        · have : ¬ id = i := fun e => hi e.symm
-          simp [hm id, idsOf, defOf, this]
-    | term i v a =>
-      simp only [specAdd, defOf, expectedErrors]
-      cases hmi : m i with
-      | none =>
-        have h1 := hm i
-        rw [hmi] at h1
-        simp only [Option.isSome_none] at h1
-        rw [← h1]
-        simp only [Bool.false_eq_true, if_false, List.nil_append]
-        apply ih
-        intro id
-        rw [idsOf_append]
-        by_cases hi : i = id
-        · subst hi; simp [Spec.set, idsOf, defOf]
-        · have : ¬ id = i := fun e => hi e.symm
-          simp [Spec.set, hi, hm id, idsOf, defOf, this]
-      | some d0 =>
-        have h1 := hm i
-        rw [hmi] at h1
-        simp only [Option.isSome_some] at h1
-        rw [← h1]
-        simp only [if_true, List.singleton_append]
-        congr 1
-        apply ih
-        intro id
-        rw [idsOf_append]
-        by_cases hi : i = id
-        · subst hi; rw [hmi]; simp [idsOf, defOf]
-        · have : ¬ id = i := fun e => hi e.symm
-          simp [hm id, idsOf, defOf, this]
+        · subst hi; rw [hmi]; simp
+        · simp [hi, hm id]
 
 /-- **exact error list** of the specification -/
 theorem specAdd_errors (m : Spec) (r : List AstEntry) :
     (specAdd m r).2 = expectedErrors (fun id => (m id).isSome) [] r :=
   specAdd_errors_aux m r [] m (by intro id; simp [idsOf])
+
+end FluentModel.Registry
+
+namespace FluentModel.Registry
+
+/-! ## traces of returned errors -/
+
+/-- the error vectors returned by the calls of a history, in order -/
+def trace : Bundle → List Op → List (List Overriding)
+  | _, [] => []
+  | b, op :: ops => (step b op).2 :: trace (step b op).1 ops
+
+def specTrace : Spec → List Op → List (List Overriding)
+  | _, [] => []
+  | m, op :: ops => (specStep m op).2 :: specTrace (specStep m op).1 ops
+
+theorem trace_refines (ops : List Op) (b : Bundle) (h : b.Inv) :
+    trace b ops = specTrace b.abs ops := by
+  induction ops generalizing b with
+  | nil => rfl
+  | cons op ops ih =>
+    have hs := step_refines b op h
+    simp only [trace, specTrace]
+    rw [ih _ hs.1, hs.2.1, hs.2.2]
+
+/-! ## histories of one kind of call -/
+
+theorem specAdd_fold_lookup (rs : List Resource) (m : Spec) (id : Id) :
+    (rs.foldl (fun m r => (specAdd m r).1) m) id = match m id with
+      | some d => some d
+      | none => firstDef rs.flatten id := by
+  induction rs generalizing m with
+  | nil => cases h : m id <;> simp [firstDef, h]
+  | cons r rs ih =>
+    simp only [List.foldl_cons, List.flatten_cons]
+    rw [ih, specAdd_lookup, firstDef_append]
+    cases m id <;> simp
+
+theorem lastDef_append (r₁ r₂ : List AstEntry) (id : Id) :
+    lastDef (r₁ ++ r₂) id = match lastDef r₂ id with
+      | some d => some d
+      | none => lastDef r₁ id := by
+  simp only [lastDef, List.reverse_append]
+  exact firstDef_append _ _ _
+
+theorem specAddOv_fold_lookup (rs : List Resource) (m : Spec) (id : Id) :
+    (rs.foldl (fun m r => specAddOv m r) m) id = match lastDef rs.flatten id with
+      | some d => some d
+      | none => m id := by
+  induction rs generalizing m with
+  | nil => simp [lastDef, firstDef]
+  | cons r rs ih =>
+    simp only [List.foldl_cons, List.flatten_cons]
+    rw [ih, specAddOv_lookup, lastDef_append]
+    cases lastDef rs.flatten id <;> simp
 
 end FluentModel.Registry
